@@ -143,6 +143,9 @@ fn jobs_of(p: &Program, rng: &mut Rng) -> Vec<Job> {
         jobs.push(Job::Component(c.clone(), if rng.bool() { Some("body <b> & text".to_string()) } else { None }, rng.bool()));
     }
     jobs.push(Job::OneOff("{{ s1 }}{% for x in xs %}{{ x }},{% endfor %}{{ g }}{{ answer() }}{{ s2 | twice }}".to_string(), rng.bool()));
+    // one-off strings without any expression or tag: plain text, and text whose only constructs are comments
+    jobs.push(Job::OneOff("plain text, no delimiters: } % # { é".to_string(), rng.bool()));
+    jobs.push(Job::OneOff("Dear customer,{# TODO #} thank you.{#- gone -#}   end".to_string(), rng.bool()));
     // everything whose output depends on the order in which a map is walked: the dump variable, maps built while
     // rendering, group_by results, keys/values/pairs, comprehensions and serialisation of such maps
     jobs.push(Job::OneOff(
